@@ -27,7 +27,7 @@ func GenHistory(t *rapid.T, maxOps int, bias17 bool) (Config, []Op) {
 			if bias17 {
 				fl = rapid.IntRange(0, 9).Draw(t, "flush") == 0
 			}
-			return Op{K: OpEv, ID: rapid.SampledFrom(ids).Draw(t, "id"), Flush: fl}
+			return Op{K: OpEv, ID: rapid.SampledFrom(ids).Draw(t, "id"), Flush: fl, CtxDone: rapid.IntRange(0, 5).Draw(t, "ctxDone") == 0}
 		case 1:
 			return Op{K: OpNonGate}
 		case 2:
